@@ -7,6 +7,7 @@ from harness.impl_gff import (impl_gff_op, arm, enc_quals, enc_rows_line, enc_co
                               ROWTYPES)
 
 WARM_TWINS = {"quick": 0.02, "thorough": 0.05}      # engine: call-history twins (harness/warm.py)
+DECOY_TWINS = {"quick": 0.02, "thorough": 0.05}     # engine: decoy twins (harness/decoy.py)
 ID = "C11"
 LEAN_MODULE = "BioCantor.Props.C11"
 DESIGN_REF = "4/C11"
